@@ -39,7 +39,9 @@ def _case(draw):
     spec = draw(D.dataset_spec(dense=True, raw=False, features=False, tfeatures=False,
                                naming='ks', curated=cur, max_nc=16, int_templates=False,
                                amplitudes=True))
-    return {'spec': spec, 'ncc': draw(st.integers(2, 12))}
+    ns = spec['ns']
+    edits = draw(st.lists(st.tuples(st.integers(0, ns - 1), st.integers(0, 14)), max_size=4))
+    return {'spec': spec, 'ncc': draw(st.integers(2, 12)), 'edits': [list(e) for e in edits]}
 
 
 def _large_cases(th):
@@ -184,6 +186,24 @@ def check(case):
                         require(ok, what + ' differs from the weighted-mean formula',
                                 key='mean-waveforms', observed=(chs, b.mean_waveforms),
                                 expected=(exp[0][0], exp[0][1][:, exp[0][0]]))
+            # the in-memory spike_clusters may be edited during manual clustering: the map computed
+            # afterwards describes the edited vector
+            if case.get('edits'):
+                sc2 = list(sc)
+                for i, c in case['edits']:
+                    m.spike_clusters[i] = c
+                    sc2[i] = c
+                mp, nan2 = must_return('get_merge_map (after in-place edit)', m.get_merge_map)
+                exp2 = {c: sorted(set(t for t, cc in zip(st_, sc2) if cc == c))
+                        for c in range(max(sc2) + 1)}
+                got2 = {int(k): sorted(int(x) for x in v) for k, v in mp.items()}
+                require(got2 == exp2, 'merge map after an in-place edit of spike_clusters',
+                        key='merge-map-after-edit', observed=got2, expected=exp2)
+                require(sorted(int(x) for x in np.asarray(nan2).tolist()) ==
+                        [c for c, v in exp2.items() if not v],
+                        'empty ids after an in-place edit of spike_clusters', key='nan-idx-after-edit',
+                        observed=nan2, expected=[c for c, v in exp2.items() if not v])
+                info['edited'] = True
         finally:
             m.close()
     return info
